@@ -174,6 +174,9 @@ def validate(res, wd, name, hists, kf):
             continue
         ev, exp = dv[0]
         ups = [e for e in h["events"] if e["e"] in ("insert", "insertAll", "extend")]
+        res.count("histories_rejected")
+        if len(res.violations) >= 25:
+            continue
         res.violations.append(("history of the real EquivalenceRelation rejected by spec/EqRelAbs.tla: %s, the partition model says %s "
                                "(%d deviating answers); job %r schedule %r; updates %s" % (ev, exp[:600], len(dv), line, h["label"], ups[:40]),
                                _save(wd, "rejected_%s_%d" % (name, hi), [line])))
